@@ -129,6 +129,7 @@ def run(ctx):
     d2(db, rep)
     scalar_operand_checked(db, rep, "D1h-SCALAR-OPERAND-CHECKED")
     array_operand_checked(db, rep, "D1j-ARRAY-OPERAND-CHECKED")
+    counter_unchanged_on_refusal(db, rep, "D1k-COUNTER-ON-REFUSAL")
     d3c_unroll_bounded(db, rep)
     d1i_divisor_positive(db, rep)
 
@@ -219,6 +220,65 @@ def d3c_unroll_bounded(db, rep, rule="D3c-UNROLL-BOUNDED"):
                       (f.name, unparse(cond)[:60], lp.line), line=lp.line)
     if n < 1:
         raise AnalysisBroken("no per-element code generation loop (bounded by constant_n) found")
+    return n
+
+
+def counter_unchanged_on_refusal(db, rep, rule):
+    """An append function that refuses (table full: error recorded, early return) must leave the element counter as it was:
+    other code trusts the counter as the number of valid entries (orc_compiler_compile_program frees the names of
+    vars[T1 + n_temp_vars .. + n_dup_vars], loops run to n_insns, n_constants ...).  A counter bumped before the capacity test
+    counts the refused slot too: the clean-up walks past the table.  For every function of the compiler / program construction
+    units that has an early `return` under a test involving a counter field and records an error on that path, no increment of
+    that counter may lie on a path from the entry to that return."""
+    from flow import path_to, single_defs
+    n = 0
+    for tub in ("orccompiler", "orcprogram"):
+        for f in db.tu(tub).main_functions():
+            sd = None
+            for ifs in [x for x in f.walk() if x.k == "IfStmt" and len(x.c) > 1 and x.c[1] is not None]:
+                rets = [r for r in ifs.c[1].walk() if r.k == "ReturnStmt"]
+                errs = [c for c in ifs.c[1].walk() if c.k == "CallExpr" and c.name in ("orc_compiler_error", "orc_program_set_error")]
+                if not rets or not errs:
+                    continue
+                sd = sd or single_defs(f)
+                counters = set()
+                todo = [ifs.c[0]]
+                seen = set()
+                while todo:
+                    e = todo.pop()
+                    for y in e.walk():
+                        if y.k == "MemberExpr" and (y.name or "").startswith("n_") and y.get("arrow"):
+                            counters.add(access_path(y))
+                        if y.k == "DeclRefExpr" and y.get("dk") == "local" and y.name in sd and y.name not in seen:
+                            seen.add(y.name)
+                            todo.append(sd[y.name])
+                if not counters:
+                    continue
+                n += 1
+                rep.saw(f)
+                bad = None
+                for cp in sorted(counters):
+                    inc = lambda e, cp=cp: (e.k == "UnaryOperator" and e.op in ("++",) and access_path(e.c[0]) == cp) or \
+                        (e.k == "CompoundAssignOperator" and e.op == "+=" and access_path(e.c[0]) == cp)
+                    # is the return reachable AFTER an increment?  i.e. not every path to it is increment-free
+                    for r in rets:
+                        incs = [x for x in f.walk() if inc(x)]
+                        for x in incs:
+                            px, pr = f.pos(x), f.pos(r)
+                            if px is None or pr is None:
+                                continue
+                            if pr[0] in f.reachable_blocks(px[0]) and not (px[0] == pr[0] and px[1] > pr[1]):
+                                # reachable in the CFG; exclude the loop-carried case where the function itself loops (none here)
+                                if not any(l.k in ("ForStmt", "WhileStmt", "DoStmt") for l in x.ancestors()):
+                                    bad = (cp, x, r)
+                rep.check(bad is None, rule, where(f), "%s:%s" % (f.name, "/".join(sorted(c.split("->")[-1] for c in counters))),
+                          "the refusal path leaves %s unchanged" % ", ".join(sorted(counters)),
+                          "%s increments `%s` (line %s) before the capacity test that can still refuse the entry (return at line %s): the counter then counts a "
+                          "slot that was never filled, and the code that trusts it - the clean-up of duplicated temporaries, loops over the table - walks past "
+                          "the end (free of garbage pointers, SIGSEGV in orc_program_compile)" %
+                          (f.name, bad[0] if bad else "", bad[1].line if bad else "", bad[2].line if bad else ""), line=bad[1].line if bad else None)
+    if n < 6:
+        raise AnalysisBroken("only %d refusing append functions found" % n)
     return n
 
 
